@@ -1307,6 +1307,12 @@ func (a *Association) unregisterStream(s *Stream, err error) {
 
 	delete(a.streams, s.streamIdentifier)
 	s.readErr = err
+	if s.readTimeoutCancel != nil {
+		// A pending read deadline no longer matters once the stream has its
+		// terminal error: end its goroutine now instead of at the deadline.
+		close(s.readTimeoutCancel)
+		s.readTimeoutCancel = nil
+	}
 	s.readNotifier.Broadcast()
 }
 
